@@ -340,6 +340,8 @@ public:
       c.source_type = (int)r.below(6);
       c.feedback = c.source_type == 3 && r.chance(0.7);
       caproni_box = c.source_type == 5;
+      c.snap_mode = (int)r.below(3);
+      c.first_snapshot = r.chance(0.2) ? 3 : 0;
       if (r.chance(0.8) && c.dyadic) {
         c.dyadic = false;
         for (int k = 0; k < 3; ++k) {
@@ -386,6 +388,8 @@ public:
       c.packets = pk[r.below(7)];
       c.steps = (int)r.range(1, 3);
       c.threads = std::min(c.threads, 8);
+      c.diffuse_rhd = r.chance(0.4);
+      c.rad_mode = r.chance(0.2) ? 1 : 0;
     }
     if (prop == "C12") {
       // widen over optional components and run modes
@@ -404,6 +408,11 @@ public:
       c.feedback = c.source_type == 3 && r.chance(0.5);
       c.backups = (int)r.range(0, 3);
       c.threads = std::min(c.threads, 6);
+      c.snap_mode = (int)r.below(3);
+      c.first_snapshot = r.chance(0.2) ? 3 : 0;
+      c.rad_mode = r.chance(0.3) ? 1 : 0;
+      c.max_neutral = r.chance(0.3) ? 0.3 : -1.;
+      c.diffuse_rhd = r.chance(0.4);
       const char *vm = getenv("VERIF_MODE");
       if (vm && std::string(vm) == "valgrind") {
         // memcheck part: about 50x slower, and without UBSan the known
@@ -665,8 +674,10 @@ public:
              "radiation on/off (Verner atomic data), radiative cooling, "
              "external gravity, hydro mask, turbulence forcing, live output "
              "(all 16 combinations of its four calculators), Gadget / AsciiFile "
-             "writer, restart dumps every step and a stop + restart after the "
-             "first step; stack and heap pre-filled with 0xA5; oracle: normal "
+             "writer, snapshots during the run, radiation every step or every "
+             "2.5 steps, diffuse re-emission, a maximum neutral fraction, five "
+             "source distributions, restart dumps every step and a stop + "
+             "restart after the first step; stack and heap pre-filled with 0xA5; oracle: normal "
              "return, no sanitizer report / signal / abort";
     else if (prop == "C14")
       what = "system-level part of C14: an uninterrupted run A (dump after "
